@@ -891,6 +891,22 @@ func (m c18) Run(c *fw.Ctx) {
 	}
 	c.Exhaustive("Complement, Transcribe: every byte value 0..255 (single, embedded, whole 256-byte sequence)")
 
+	// A2. long runs of one query letter (a pattern builder that compresses
+	// runs must not hit a repeat-count limit): run lengths around 1000.
+	for _, n := range []int{999, 1000, 1001, 1500} {
+		for _, q := range []byte{'a', 'n', 'r', '-'} {
+			if !c.NextShared() {
+				continue
+			}
+			seq := bytes.Repeat([]byte{'a'}, n+300)
+			if q == '-' {
+				seq = bytes.Repeat([]byte{'-'}, n+300)
+			}
+			seq[n+100] = 'c'
+			m.match(c, "long-run", seq, bytes.Repeat([]byte{q}, n))
+		}
+	}
+
 	// B. Match table: 32 x 32 cells, and each query letter against the alphabet.
 	for _, q := range letters32 {
 		for _, s := range letters32 {
